@@ -296,9 +296,11 @@ static void env_run(const char *path, const uint8_t *content, int size, long off
         for (int i = 0; i < nplan && i < npoints; i++) { if (env_menu[i] == 2 ? plan[i] == 1 : plan[i] == 3) hard = 1; if (env_menu[i] == 6 && plan[i] == 4) eintr = 1; if (env_menu[i] == 6 && plan[i] == 5) trunc = 1; }
         long cnt = nb == 0 ? size - off : nb;
         if (cnt == 0) trunc = 0;                      /* nothing to read: the read loop is not entered */
-        /* within the property: short reads only - the digest may not depend on how the bytes arrive. Failing calls and a file
-         * that shrinks while it is read are outside C18 (the byte range no longer exists): class robust:*, not counted for C18 */
-        if (env_endless) vc_viol("robust:md5file-endless", "%s: still calling read() after 2000 calls (file truncated while being read)", key);
+        /* within the property: short reads (the digest may not depend on how the bytes arrive) and a read that hits the end of the
+         * file before st_size is reached - every sysfs attribute reports 4096 bytes and holds a few, so qhashmd5_file(path, 0, 0)
+         * meets that without any concurrency: it must return (false), not call read() forever. A descriptor left open when fstat
+         * fails is reported in class robust:*, which C18 does not count */
+        if (env_endless) vc_viol("md5file:endless", "%s: still calling read() after 2000 calls although read() reports the end of the file", key);
         else if (hard || trunc) { if (ok) vc_viol("md5file:accept", "%s: returned true although %s", key, hard ? "a system call failed" : "the file ended early"); }
         else if (!ok) { if (!eintr) vc_viol("md5file:accept", "%s: returned false although every byte could be read (short reads only)", key); }
         else { ref_md5(content + off, cnt, m2); if (memcmp(m1, m2, 16)) vc_viol("md5file:value", "%s: digest differs from MD5 of that byte range", key); }
@@ -333,10 +335,39 @@ static void run_fileenv(int D) {
 }
 #endif
 
+/* lengths around 2^31: block counts and tail offsets that do not fit into an int. The buffer is an anonymous mapping (untouched
+ * pages are the shared zero page) with a few non-zero bytes at both ends; the references use size_t throughout. */
+#include <sys/mman.h>
+static void run_hugelen(int thorough) {
+    const size_t LN[] = {2147483651u, 2147483663u, 2147483647u, 2147483648u, 4294967299u};
+    size_t cap = 4294967299u + 16;
+    uint8_t *buf = mmap(NULL, cap, PROT_READ | PROT_WRITE, MAP_PRIVATE | MAP_ANONYMOUS | MAP_NORESERVE, -1, 0);
+    if (buf == MAP_FAILED) { vc_stat_add("hugelen_skipped", 1); printf("NOTE\tcannot map %zu bytes here: family skipped\n", cap); return; }
+    for (int i = 0; i < 5; i++) { if (!thorough && i >= 2) break;
+        size_t n = LN[i]; char key[64]; snprintf(key, sizeof key, "hugelen:%zu", n);
+        if (!vc_case("qhashmurmur3_32", key)) continue;
+        n_eval++; n_nontrivial++;
+        buf[0] = 0x11; buf[5] = 0x80; buf[n - 1] = 0x7f; buf[n - 2] = 0xfe; buf[n - 17] = 0x33;
+        uint32_t h = qhashmurmur3_32(buf, n), hr = ref_mm32(buf, n);
+        if (h != hr) vc_viol("murmur3_32:value", "%s: %08x, MurmurHash3_x86_32 of these %zu bytes is %08x", key, h, n, hr);
+        vc_label("qhashmurmur3_128");
+        uint64_t q[2] = {0, 0}, qr[2]; ref_mm128(buf, n, qr);
+        if (!qhashmurmur3_128(buf, n, q)) vc_viol("murmur3_128:false", "%s: returned false", key);
+        else if (q[0] != qr[0] || q[1] != qr[1]) vc_viol("murmur3_128:value", "%s: differs from MurmurHash3_x64_128 of these %zu bytes", key, n);
+        vc_label("qhashfnv1_32");
+        if (qhashfnv1_32(buf, n) != ref_fnv32(buf, n)) vc_viol("fnv1_32:value", "%s: differs from FNV-1 32 of these %zu bytes", key, n);
+        buf[n - 1] = buf[n - 2] = buf[n - 17] = 0;
+        vc_case_end();
+    }
+    munmap(buf, cap);
+    vc_sample("qhashmurmur3_32 / _128 / fnv1_32 of 2^31+3 and 2^31+15 bytes (thorough: 2^31-1, 2^31, 2^32+3 as well; zero pages with marked ends)");
+}
+
 static int replay(const char *key) {
     if (!strncmp(key, "small:", 6)) { uint8_t in[8]; int n = vc_unhex(key + 6, in); small_case(in, n); }
     else if (!strncmp(key, "grid:", 5)) { int l, a, c, p; sscanf(key + 5, "%d:%d:%d:%d", &l, &a, &c, &p); grid_case(l, a, c, p); }
     else if (!strncmp(key, "file:", 5)) run_file();
+    else if (!strncmp(key, "hugelen:", 8)) run_hugelen(1);
 #ifdef C18_ENV
     else if (!strncmp(key, "fileenv:", 8)) { vc_viol_print_per_class = 3; run_fileenv(2); }
 #endif
@@ -349,6 +380,7 @@ static int worker(int argc, char **argv) {
     if (!strcmp(argv[1], "small")) run_small(atoi(argv[2]), atoi(argv[3]), atoi(argv[4]));
     else if (!strcmp(argv[1], "grid")) run_grid(atol(argv[2]), atol(argv[3]), argc > 4 && atoi(argv[4]));
     else if (!strcmp(argv[1], "file")) run_file();
+    else if (!strcmp(argv[1], "hugelen")) { vc_hang_ticks = 300; run_hugelen(argc > 2 && atoi(argv[2])); }
 #ifdef C18_ENV
     else if (!strcmp(argv[1], "fileenv")) run_fileenv(atoi(argv[2]));
 #endif
